@@ -26,6 +26,17 @@ def main():
             run.violation({"broken": "core Coq development does not build",
                            "file": bad[0].path, "error": bad[0].err[-2000:]}, False)
             return run.finish("core build failed")
+        if run.tier == "thorough" and getattr(mod, "HAND_FILES", ()):
+            # independent re-check of the property's hand-written development with coqchk; recorded in the
+            # evidence by Run.finish through run.extra
+            ok2, summ, tail = vlib.coqchk(list(getattr(mod, "HAND_FILES")))
+            run.extra["coqchk"] = dict(summ, ok=ok2, modules=list(getattr(mod, "HAND_FILES")))
+            run.checker_cmds.append("coqchk -silent -o -Q coq UFLV <hand files of the property>")
+            for k in ("axioms", "type_in_type", "unsafe_fixpoints", "assumed_positivity"):
+                if summ.get(k) not in ("<none>", None):
+                    run.trusted.add(f"coqchk {k}: {summ.get(k)}")
+            if not ok2:
+                run.violation({"broken": "coqchk rejects the compiled hand-written development", "output": tail}, False)
         return mod.main(run)
     except Exception:
         tb = traceback.format_exc()
